@@ -52,6 +52,11 @@ CLAIMED = {
             "TLC explores every assignment history over a small key universe (full reachable graph), proves the trie model refines a "
             "dictionary, and every (state, assignment) edge is replayed on the real TrieDict with all observers compared by the trace spec.",
             "Trusted: TLC, TrieDict.tla's transcription of trie_dict.py, the driver's projection of observer results to strings."),
+    "C07": ("DESIGN.md section 4 / C07",
+            "TLC checks on the reference models that the hostname helpers commute with normalize/fingerprint over the spelling machines; spellings, redirect-carrying URLs and bare hostnames replayed into ~30 real calls each; TLC trace spec re-parses URL-level results (Url.tla) and recomputes LRU stems (Lru.tla) to compare with the helpers",
+            "The helper results (get_normalized_hostname, get_fingerprinted_hostname, normalize_hostname, fingerprint_hostname, *_lru_stems, get_hostname) "
+            "are compared by the trace spec with the host / stems that the TLA+ parser and stem model extract from the URL-level results.",
+            "Trusted: TLC; Url.tla parser, Lru.tla stems (both cross-checked against the code elsewhere: C01 drift, C12 drift); lrugen.json suffix table."),
     "C08": ("DESIGN.md section 4 / C08",
             "publicsuffix.org algorithm as a TLA+ definition + implementation-shaped SuffixTrie model; TLC checks Walk = PSL on every rule set up to a size (all hosts of depth <= 4) and insertion-order independence; rule sets and bundled-list hosts generated by TLC, replayed into the real SuffixTrie / tld functions; TLC trace validation",
             "TLC proves, for every rule set of <= 3 (thorough: 4) normal/wildcard/exception rules over 3 labels and all 120 hosts, that the trie walk "
@@ -59,6 +64,19 @@ CLAIMED = {
             "from the ~9,950 bundled rules are run through split_suffix / get_domain_name / has_valid_suffix / has_valid_tld and judged against the "
             "algorithm evaluated by TLC over the bundled rules.",
             "Trusted: TLC; export of the bundled rule list (data) with an ASCII armour for IDN labels; nested-exception hosts skipped."),
+    "C11": ("DESIGN.md section 4 / C11",
+            "TLA+ model LRUTrie = TrieDict o stems with abstract store; TLC explores the complete reachable graph of an 8-URL universe (longest stored prefix, latest value, len); edge cover + random histories replayed into the four real trie classes; TLC trace validation incl. same-image-same-key",
+            "TLC checks on the implementation-shaped model that match = value of the longest stored cleaned-stem prefix for all histories over a small universe; "
+            "recorded histories of LRUTrie and its three variants (set / set_lru in both forms) are validated step by step against the abstract store.",
+            "Trusted: TLC; for variants the key is the class's own tokenizer output (C07 judges the tokenizers)."),
+    "C12": ("DESIGN.md section 4 / C12",
+            "TLA+ model of stems / serialize / unserialize / lru_to_url with round-trip invariants checked by TLC on the full URL grammar; the grammar rendered by TLC is replayed into ural.lru; TLC trace spec compares components (Url.tla) and the model's stems with the real ones",
+            "TLC checks the round trips on the model for all 51,840 grammar URLs x suffix_aware, and judges the seven real conversions per URL component by component.",
+            "Trusted: TLC; Url.tla; the small suffix table (checked against ural at run time)."),
+    "C13": ("DESIGN.md section 4 / C13",
+            "Under(u, v) defined in TLA+ over an abstract URL universe; TLC checks Under <=> stem-prefix on the model for all ordered pairs; real lru_stems / url_to_lru of every URL tabled and all ordered pairs judged by TLC",
+            "Every ordered pair of the universe (both suffix modes) is judged by TLC on the stems the real code produced: ancestors are exactly the LRU prefixes.",
+            "Trusted: TLC; the definition of Under in LruUniverse.tla."),
     "C09": ("DESIGN.md section 4 / C09",
             "TLA+ model of HostnameTrieSet over TrieDict!SetAndPrune checked by TLC against the abstract set of added hosts (all histories, finite universe); edge cover + random histories replayed into the real class; TLC trace validation",
             "TLC explores all 2^14 / 2^12 sets of added hosts (every history of any length over the universe), checks antichain refinement, "
